@@ -5,6 +5,7 @@ import (
 	"encoding/hex"
 	"errors"
 	"math/big"
+	"strings"
 	"time"
 
 	"github.com/edutko/decipher/internal/names"
@@ -105,12 +106,11 @@ func (r Raw) Value() string {
 		return "null"
 
 	case asn1.TagOID:
-		var o asn1.ObjectIdentifier
-		_, err := asn1.Unmarshal(r.FullBytes, &o)
-		if err != nil {
+		s, ok := oidString(r.Bytes)
+		if !ok {
 			return hex.EncodeToString(r.Bytes)
 		}
-		return o.String()
+		return s
 
 	case asn1.TagUTF8String, asn1.TagNumericString, asn1.TagPrintableString:
 		var s string
@@ -131,4 +131,48 @@ func (r Raw) Value() string {
 	default:
 		return hex.EncodeToString(r.Bytes)
 	}
+}
+
+// oidString renders the content octets of an OBJECT IDENTIFIER in dotted notation.
+// Unlike asn1.ObjectIdentifier it does not limit the size of an arc (2.25.<UUID>
+// has a 128-bit arc). It reports false for content that is not valid DER: no octets,
+// a sub-identifier that starts with 0x80 (not minimal), or a last octet with the
+// continuation bit set.
+func oidString(b []byte) (string, bool) {
+	if len(b) == 0 || b[len(b)-1]&0x80 != 0 {
+		return "", false
+	}
+	var sb strings.Builder
+	v := new(big.Int)
+	first, start := true, true
+	for _, c := range b {
+		if start && c == 0x80 {
+			return "", false
+		}
+		start = false
+		v.Lsh(v, 7).Or(v, big.NewInt(int64(c&0x7f)))
+		if c&0x80 != 0 {
+			continue
+		}
+		if first {
+			// the first sub-identifier packs the first two arcs as 40*X + Y
+			switch {
+			case v.Cmp(big.NewInt(40)) < 0:
+				sb.WriteString("0.")
+			case v.Cmp(big.NewInt(80)) < 0:
+				sb.WriteString("1.")
+				v.Sub(v, big.NewInt(40))
+			default:
+				sb.WriteString("2.")
+				v.Sub(v, big.NewInt(80))
+			}
+			first = false
+		} else {
+			sb.WriteByte('.')
+		}
+		sb.WriteString(v.String())
+		v.SetInt64(0)
+		start = true
+	}
+	return sb.String(), true
 }
